@@ -330,6 +330,9 @@ impl<'a> Ck<'a> {
             }
             MDef::Interface(i) => {
                 self.attrs(&i.c.attrs, Target::Interface);
+                for b in &i.bases {
+                    self.attrs(&b.attrs, Target::TypeRef);
+                }
                 self.unique_names(i.ops.iter().map(|o| o.c.name.name.as_str()));
                 let mut inh = vec![];
                 self.inherited_ops(i, scope, &mut HashSet::new(), &mut inh);
